@@ -69,6 +69,11 @@ pub struct Scn {
     /// than this must make the transform fail - never resolve to something else instead
     #[serde(default)]
     pub var_limit: Option<u32>,
+    /// append a group whose id contains a variable that only the group itself defines
+    /// (id="Q$vq" vq="x": the id stays "Q$vq") and a reference to "#Qx": that reference can
+    /// never be satisfied, the transform must fail
+    #[serde(default)]
+    pub phantom: bool,
 }
 
 // ---------------------------------------------------------------------------------------------
@@ -235,7 +240,12 @@ impl<'a> Gen<'a> {
         self.next_inst += 1;
         let mut attrs = Vec::new();
         if self.rng.chance(1, 2) {
-            attrs.push(("va".to_string(), Expr::Lit(self.lit_text())));
+            let mut t = self.lit_text();
+            if self.rng.chance(1, 3) {
+                // long enough to cross a small var-limit
+                t.push_str("longvalue01");
+            }
+            attrs.push(("va".to_string(), Expr::Lit(t)));
         }
         if self.rng.chance(1, 2) {
             attrs.push(("vb".to_string(), Expr::Copy(self.rng.pick(&["va", "vb"]).to_string())));
@@ -367,6 +377,9 @@ pub fn render(scn: &Scn, fwd: bool) -> String {
         s.push_str("  <defaults><_ match=\"rect text var\" vz=\"DLEAK\" fill=\"dleak\"/><rect va=\"dva\"/><text vb=\"dvb\"/><g vz=\"GLEAK\" vm=\"77\"/><_ match=\"g\" fill=\"gleak\"/></defaults>\n");
     }
     render_body(&scn.body, 1, false, &mut s, &mut line);
+    if scn.phantom {
+        s.push_str("  <g id=\"Q$vq\" vq=\"x\"><rect xy=\"1 90\" wh=\"1\"/><var vq=\"x\"/></g>\n  <rect xy=\"#Qx|h\" wh=\"1\"/>\n");
+    }
     if fwd {
         s.push_str(&anchors);
     }
@@ -684,6 +697,7 @@ impl Engine for C15 {
             derived,
             defaults: index % 5 == 2,
             var_limit,
+            phantom: index % 12 == 7,
         })
         .unwrap()
     }
@@ -745,6 +759,20 @@ impl Engine for C15 {
         res.stats.nontrivial = retried;
         for (variant, out, doc) in [("back", &ob, &back), ("fwd", &of, &fwd)] {
             res.stats.outcome(out.class());
+            if scn.phantom {
+                res.stats.probe("phantom_id_reference");
+                if let Outcome::Ok(bytes) = out {
+                    res.violation(
+                        "scoping/phantom-id-resolved",
+                        &format!("c15:phantom-id-resolved:{variant}"),
+                        format!(
+                            "{variant} variant: a reference to #Qx was satisfied although the only candidate is <g id=\"Q$vq\" vq=\"x\">, whose id may not see the group's own attribute; output: {}",
+                            shorten(&String::from_utf8_lossy(bytes), 400)
+                        ),
+                    );
+                }
+                continue;
+            }
             if expect_rejected {
                 res.stats.probe("model_expects_var_limit_rejection");
                 if let Outcome::Ok(bytes) = out {
@@ -959,6 +987,11 @@ impl Engine for C15 {
         if scn.defaults {
             let mut s = scn.clone();
             s.defaults = false;
+            out.push(s);
+        }
+        if scn.var_limit.is_some() && !scn.phantom {
+            let mut s = scn.clone();
+            s.var_limit = None;
             out.push(s);
         }
         for di in 0..scn.derived.len() {
